@@ -69,6 +69,9 @@ fn main() {
     let du = dspec.universe();
     let capd = if quick { 300_000 } else { 20_000_000 };
     ctx.run_slice(Slice::new(format!("lax-deletions-stay-well-formed[{} first {}]", dspec.name(), capd.min(du.count())), du.count().min(capd), |i, loc| check_lax_deletions(&du.get(i), loc)));
+    // the Forget functors return well-formed, type-preserving diagrams (variable hyperedges of arity <=3 x <=3)
+    let sft = ohmc::props::c19::structured_forget_terms();
+    ctx.run_slice(Slice::new(format!("forget-functor-outputs[{} terms]", sft.len()), sft.len() as u64, |i, loc| ohmc::props::c19::check_forget_term(&sft[i as usize], loc)));
     // larger inputs: typed results on structured diagrams; batches of four operations with types of length up to 3
     let st: Vec<_> = ohmc::props::structured::shapes(3).into_iter().map(|x| x.1).collect();
     ctx.run_slice(Slice::new(format!("typed-single-structured[{} diagrams]", st.len()), st.len() as u64, |i, loc| {
